@@ -9,15 +9,22 @@ THEOREMS = [
     "C27_typechange_refuted", "C27_samestat_refuted", "C27_info_exclude_refuted",
     "C27_shortcut_sound_partial", "C27_shortcut_sound_refuted",
     "C27_ts_compare", "C27_shortcut_sound_ns_partial", "C27_shortcut_seconds_refuted",
+    "C27_walk_flat", "C27_status_eq",
+    "C27_skip_staged_refuted", "C27_skip_dir_untracked_refuted", "C27_skip_names_unrepaired_refuted",
 ]
-MODEL_FILES = ["Status.v", "StatTime.v"]
-MODELLED = ("worktree_status.go Worktree.status (the fold of the two change lists into the Status map, nameFromAction, "
+MODEL_FILES = ["Status.v", "StatTime.v", "StatusTrie.v", "DiffTree.v", "Gitignore.v"]
+MODELLED = ("worktree_status.go Worktree.status from (HEAD tree, index tree, worktree tree): the three noder trees, the "
+            "merkletrie walk (Model/DiffTree.v recursive merge for the theorems; the two-iterator loop of difftree.go / "
+            "doubleiter.go / iter.go with the Skip() rules of skip-worktree entries for the correspondence, both "
+            "evaluated and compared on every case), mindex.NewRootNode (tree inferred from the entry paths, cross-checked), "
+            "the ignore verdict computed by the C49 model (Model/Gitignore.v: Scope / matcher / wildmatch) from the "
+            ".gitignore files of the case, time stamps with nanoseconds (Model/StatTime.v); and, as before: "
+            "Worktree.status (the fold of the two change lists into the Status map, nameFromAction, "
             "Untracked -> Unmodified promotion), diffTreeIsEquals over the noder hashes of utils/merkletrie/index/node.go "
             "(Hash, upholdExecutableBit) and utils/merkletrie/filesystem/node.go (calculateHash with format.SHA1, "
             "metadataMatches incl. size mod 2^32 and the racy check, shouldSkipIgnored for tracked entries) on flattened "
             "path maps (Model/Status.v); spec: git's porcelain v1 XY records per path (Spec/GitStatus.v); not modelled: "
-            "the merkletrie walk itself (only file-like noders are reported: C44), gitignore pattern matching (C49; the "
-            "verdict per untracked file is an input), submodules, skip-worktree entries (C32), autocrlf hashing (C31), "
+            "submodules, autocrlf hashing (C31), the lazy reading of .gitignore files (resolveScope; the verdict is the same), "
             "rename detection (disabled on the git side)")
 TRUSTED = [
     "C-impl: Worktree.Status on repositories built by harness/porc with the git binary vs Model/Status on every case",
@@ -62,7 +69,51 @@ IMTS = [lambda w: (w[0], w[1] - 50), lambda w: w, lambda w: (w[0], w[1] + 50), l
 STAMPS = [(w, f(w)) for w in WMTS for f in IMTS]
 
 
-def model_inputs(st):
+MODENUM = {"f": 33188, "x": 33261, "l": 40960}
+
+
+def nest(flat):
+    """flat: sorted list of (path string, mode number, data list) -> Coq list of tin (StatusTrie.tin)"""
+    def build(items):
+        out, i = [], 0
+        while i < len(items):
+            comps, m, d = items[i]
+            if len(comps) == 1:
+                out.append('TF "%s" %s %s' % (comps[0].encode().hex(), coq_N(m), coq_list([coq_N(x) for x in d])))
+                i += 1
+            else:
+                j, sub = i, []
+                while j < len(items) and len(items[j][0]) > 1 and items[j][0][0] == comps[0]:
+                    sub.append((items[j][0][1:], items[j][1], items[j][2]))
+                    j += 1
+                out.append('TD "%s" %s' % (comps[0].encode().hex(), build(sub)))
+                i = j
+        return coq_list(["(%s)" % x for x in out])
+    # group by first component whatever the byte order of '/' (a, a-b, a/c): sort by component lists
+    return build(sorted([(p.split("/"), m, d) for p, m, d in flat], key=lambda x: [c.encode() for c in x[0]]))
+
+
+def idx_only_ignores(st):
+    """.gitignore entries flagged skip-worktree whose file is absent from the worktree: path -> staged content"""
+    return {q: c for q, (m, c, f) in st["index"].items()
+            if f == "skip" and m != "l" and q.rsplit("/", 1)[-1] == ".gitignore" and q not in st["wt"]
+            and not any(x.startswith(q + "/") for x in st["wt"])}
+
+
+def git_ignored(st, p):
+    """git's verdict: as pg.ignored, with the skip-worktree .gitignore entries read from the index"""
+    extra = idx_only_ignores(st)
+    if not extra:
+        return pg.ignored(st, p)
+    st2 = dict(st)
+    st2["wt"] = dict(st["wt"])
+    for q, c in extra.items():
+        st2["wt"][q] = ("f", c, "")
+    return pg.ignored(st2, p)
+
+
+def model_parts(st):
+    """-> (tstate expression, index entries expression) of Model/StatusTrie.v"""
     cids = {b"": 0}
 
     def cid(c):
@@ -72,25 +123,44 @@ def model_inputs(st):
     idxtime = T1 if st["racy"] else T1 + 10 ** 6 * NS
     if sp:
         idxtime = ns(sp["imt"])
-    head = ['("%s", %s, %s)' % (p.encode().hex(), coq_N(MODE[m]), coq_N(cid(c))) for p, (m, c) in sorted(st["head"].items())]
-    index = []
+    head = [(p, MODENUM[m], [fmt, cid(c)]) for p, (m, c) in sorted(st["head"].items())]
+    index, skip = [], []
     for p, (m, c, f) in sorted(st["index"].items()):
         if f == "ita":
-            index.append('("%s", %s, %s, %s, %s, true)' % (p.encode().hex(), coq_N(MODE[m]), coq_N(0), coq_N(0), coq_N(1)))
+            index.append((p, MODENUM[m], [fmt, 0, 0, 1, 1]))
         else:
             emt = ns(sp["emt"]) if (sp and sp["p"] == p) else T1
-            index.append('("%s", %s, %s, %s, %s, false)' % (p.encode().hex(), coq_N(MODE[m]), coq_N(cid(c)), coq_N(len(c)), coq_N(emt)))
-    wt = []
+            index.append((p, MODENUM[m], [fmt, cid(c), len(c), emt, 0]))
+        if f == "skip":
+            skip.append(p)
+    wt, ign = [], []
     for p, (m, c, t) in sorted(st["wt"].items()):
         s = st["index"].get(p)
         kept = s is not None and s[0] == m and s[1] == c and t == ""
         mt = T1 if (kept or t == "samestat") else (T1 + 100 * NS if t == "touch" else T1 + 50 * NS)
         if t == "stamp":
             mt = ns(sp["wmt"])
-        wt.append('("%s", %s, %s, %s, %s, %s, %s)' % (p.encode().hex(), coq_N(MODE[m]), coq_N(cid(c)), coq_N(len(c)), coq_N(mt),
-                                                        coq_bool(pg.ignored(st, p, False)), coq_bool(pg.ignored(st, p, True))))
-    return "(mk_state %s %s %s %s %s %s)" % (coq_N(fmt), coq_bool(st["filemode"]), coq_N(idxtime),
-                                             coq_list(head), coq_list(index), coq_list(wt))
+        wt.append((p, MODENUM[m], [cid(c), len(c), mt]))
+        if p.rsplit("/", 1)[-1] == ".gitignore" and m != "l":
+            d = p.split("/")[:-1]
+            ign.append("(%s, \"%s\")" % (coq_list(['"%s"' % x.encode().hex() for x in d]), c.hex()))
+    excl = 'Some "%s"' % st["exclude"].hex() if st["exclude"] else "None"
+    ign_idx = []
+    for q, cont in idx_only_ignores(st).items():
+        ign_idx.append("(%s, \"%s\")" % (coq_list(['"%s"' % x.encode().hex() for x in q.split("/")[:-1]]), cont.hex()))
+    ts = "(mk_tstate %s %s %s %s %s %s %s %s %s (%s))" % (
+        coq_N(fmt), coq_bool(st["filemode"]), coq_N(idxtime), nest(head), nest(index), nest(wt),
+        coq_list(['"%s"' % q.encode().hex() for q in skip]), coq_list(ign), coq_list(ign_idx), excl)
+    # idx.Entries order: by path bytes
+    ents = coq_list(["(%s, %s, %s)" % (coq_list(['"%s"' % x.encode().hex() for x in p.split("/")]), coq_N(m),
+                                       coq_list([coq_N(x) for x in d]))
+                     for p, m, d in sorted(index, key=lambda e: e[0].encode())])
+    return ts, ents
+
+
+def model_inputs(st):
+    ts, ents = model_parts(st)
+    return "%s (mk_entries %s)" % (ts, ents)
 
 
 def deviation(st, p):
@@ -99,6 +169,23 @@ def deviation(st, p):
     link = lambda e: e is not None and e[0] == "l"
     if i is not None and i[2] == "ita":
         return "ita"
+    # skip-worktree entries (sparse checkout)
+    def all_skip_dir(q):
+        comps = q.split("/")
+        for k in range(1, len(comps)):
+            d = "/".join(comps[:k]) + "/"
+            below = [e for x, e in st["index"].items() if x.startswith(d)]
+            if below and all(e[2] == "skip" for e in below):
+                return True
+        return False
+    if i is not None and i[2] == "skip" and (h is None or h[:2] != i[:2]):
+        return "skip-staged-invisible"
+    if i is None and h is not None and all_skip_dir(p) and (w is None or pg.ignored(st, p)):
+        return "skip-staged-invisible"
+    if i is None and w is not None and all_skip_dir(p) and not pg.ignored(st, p):
+        return "skip-dir-hides-untracked"
+    if i is None and w is not None and git_ignored(st, p) != pg.ignored(st, p):
+        return "skip-gitignore-from-index"
     if i is None and w is not None and pg.ignored(st, p, False) != pg.ignored(st, p, True):
         return "info-exclude"
     if h is not None and i is None and w is not None and not pg.ignored(st, p):
@@ -132,7 +219,7 @@ def parse_recs(recs):
 class Main(Suite):
     name = "main"
     go_cmd = "c27"
-    coq_imports = "From GoGit Require Import Model.Status Spec.GitStatus."
+    coq_imports = "From GoGit Require Import Model.Status Model.StatusTrie Spec.GitStatus Spec.GitStatusTrie."
     quick_n = 130
     thorough_n = 500
     coq_chunk = 100
@@ -156,6 +243,43 @@ class Main(Suite):
                       "wt": {"r": (m, b, "samestat"), "k": ("f", b"keep\n", "")}}
                 c = pg.recipe(st)
                 c["bucket"] = "racy-samestat"
+            if k % 6 == 3:
+                # skip-worktree entries: file gone (the sparse-checkout shape), still there, or changed; staged
+                # changes under the flag; untracked neighbours sorting before / after, at other depths
+                st = pg.gen_state(rng, features=("ignore", "racy"))
+                st["exclude"] = b""
+                st["wt"].pop("q.ex", None)
+                cand = sorted(st["index"])
+                shape = (k // 6) % 4
+                if shape == 3 or not cand:
+                    # a skipped file next to unrelated files on both sides, and below a shared directory
+                    a, b2 = b"1\n", b"2\n"
+                    st["head"] = {"d/m": ("f", a), "e": ("f", a), "d2/k": ("f", a)}
+                    st["index"] = {"d/m": ("f", a, ""), "e": ("f", rng.choice([a, b2]), "skip"), "d2/k": ("f", a, "skip")}
+                    st["wt"] = {"d/m": ("f", a, "")}
+                    for q in rng.sample(["b", "d/e", "d/z", "e", "f", "d2/k", "d2/u", "d/a"], rng.choice([2, 3, 4])):
+                        st["wt"][q] = ("f", b2, "")
+                    st["dirs"] = []
+                else:
+                    for q in rng.sample(cand, min(len(cand), rng.choice([1, 2, 3]))):
+                        m, cont, _ = st["index"][q]
+                        st["index"][q] = (m, cont, "skip")
+                        r = rng.random()
+                        if r < 0.6:
+                            st["wt"].pop(q, None)
+                            for x in [x for x in st["wt"] if x.startswith(q + "/")]:
+                                del st["wt"][x]
+                        elif r < 0.8 and q in st["wt"] and m != "l":
+                            st["wt"][q] = (m, b"changed under skip\n", "")
+                    if shape == 1:
+                        # every entry of one directory skipped
+                        ds = sorted({q.rsplit("/", 1)[0] for q in st["index"] if "/" in q})
+                        if ds:
+                            d = rng.choice(ds)
+                            for q in [q for q in st["index"] if q.startswith(d + "/")]:
+                                st["index"][q] = st["index"][q][:2] + ("skip",)
+                c = pg.recipe(st)
+                c["bucket"] = "skip"
             if k % 6 == 1:
                 # same-size rewrite of a tracked file with explicit sub-second time stamps (see STAMPS)
                 a, b = rng.choice([(b"11\n", b"22\n"), (b"1\n", b"2\n"), (b"x", b"y"), (b"same\n", b"same\n")])
@@ -171,7 +295,7 @@ class Main(Suite):
         return cases
 
     def model_expr(self, c):
-        return "c27_run %s" % model_inputs(sof(c))
+        return "c27_trie_run %s" % model_inputs(sof(c))
 
     def nontrivial(self, c):
         st = sof(c)
@@ -212,7 +336,7 @@ class Main(Suite):
 
     def extra(self, ctx, cases, impl, model):
         # C-git: S (Spec/GitStatus) against the git binary
-        exprs = ["c27_git_run %s" % model_inputs(sof(c)) for c in cases]
+        exprs = ["c27_git_trie_run %s" % model_parts(sof(c))[0] for c in cases]
         outs = ctx.coq_eval(self.coq_imports, exprs, chunk=100)
         bad = 0
         sym = {" ": "unmod", "?": "untracked"}
